@@ -1,7 +1,7 @@
 CONSTANTS
   Thr16 = 40
   ThrN = 0
-  Thr32 = 5
+  Thr32 = 6
   MaxFiles = 1
   MaxChunks = 2
   MaxX = 2
